@@ -221,13 +221,40 @@ namespace vc
         return false;
     }
 
+    // which leaf object an allocator of a container refers to
+    template <class T, class L>
+    int tag_of(const fm::std_allocator<T, L>& a)
+    {
+        return a.get_allocator().tag;
+    }
+    // type-erased: ask it for one byte and see which leaf served it
+    template <class T>
+    int tag_of(const fm::std_allocator<T, fm::any_allocator>& a)
+    {
+        std::size_t before[2] = {leaf_by_tag(0)->live.size(), leaf_by_tag(1)->live.size()};
+        auto&       base      = a.get_allocator();
+        void*       p         = base.allocate_node(1, 1);
+        int         tag       = -2;
+        for (int i = 0; i < 2; ++i)
+            if (leaf_by_tag(i)->live.size() != before[i])
+                tag = i;
+        base.deallocate_node(p, 1, 1);
+        return tag;
+    }
+
     template <class Cont, class Twin, class Kind, std::size_t NodeConstant, class Leaf = vleaf, int Prop = 7>
     struct BoxSet : IBoxSet
     {
         using alloc = typename Cont::allocator_type;
         int propagation() override
         {
-            return Prop;
+            // what the allocator's traits declare (Prop documents the expectation of the registration)
+            using at = std::allocator_traits<alloc>;
+            int p    = (at::propagate_on_container_copy_assignment::value ? 1 : 0)
+                    | (at::propagate_on_container_move_assignment::value ? 2 : 0)
+                    | (at::propagate_on_container_swap::value ? 4 : 0);
+            (void)Prop;
+            return p;
         }
         std::unique_ptr<Cont> c[3];
         std::unique_ptr<Twin> t[3];
@@ -328,7 +355,7 @@ namespace vc
         }
         int bound(int s) override
         {
-            return c[s] ? c[s]->get_allocator().get_allocator().tag : -1;
+            return c[s] ? tag_of(c[s]->get_allocator()) : -1;
         }
         long size(int s) override
         {
@@ -366,6 +393,29 @@ namespace vc
     using SA = fm::std_allocator<T, vleaf>;
     template <class T>
     using SN = fm::std_allocator<T, vleaf_np>;
+
+    template <class T>
+    using SY = fm::any_std_allocator<T>;
+// containers over the type-erased std_allocator (any_std_allocator<T>), bound to the same instrumented leaves
+#define VC_REGISTER_ELEM_ANY(NAME, T)                                                                                  \
+    static Reg y_vec_##NAME("vector:" #NAME ":any",                                                                   \
+                            [] { return new BoxSet<std::vector<T, SY<T>>, std::vector<T>, kind_back, 0>(); });         \
+    static Reg y_deq_##NAME("deque:" #NAME ":any",                                                                    \
+                            [] { return new BoxSet<std::deque<T, SY<T>>, std::deque<T>, kind_back, 0>(); });           \
+    static Reg y_lst_##NAME("list:" #NAME ":any", [] {                                                                \
+        return new BoxSet<std::list<T, SY<T>>, std::list<T>, kind_list, fm::list_node_size<T>::value>();             \
+    });                                                                                                                \
+    static Reg y_set_##NAME("set:" #NAME ":any", [] {                                                                 \
+        return new BoxSet<std::set<T, std::less<T>, SY<T>>, std::set<T>, kind_set, fm::set_node_size<T>::value>();    \
+    });                                                                                                                \
+    static Reg y_map_##NAME("map:" #NAME ":any", [] {                                                                 \
+        return new BoxSet<std::map<T, T, std::less<T>, SY<std::pair<const T, T>>>, std::map<T, T>, kind_map,          \
+                          fm::map_node_size<std::pair<const T, T>>::value>();                                         \
+    });                                                                                                                \
+    static Reg y_ust_##NAME("unordered_set:" #NAME ":any", [] {                                                       \
+        return new BoxSet<std::unordered_set<T, EHash, std::equal_to<T>, SY<T>>, std::unordered_set<T, EHash>,        \
+                          kind_uset, fm::unordered_set_node_size<T>::value>();                                        \
+    });
 
 // containers over the allocator with specialised propagation traits (copy/move assignment do not propagate, swap does)
 #define VC_REGISTER_ELEM_NP(NAME, T)                                                                                   \
